@@ -195,6 +195,12 @@ def get_left_right_on(
                 must_swap_cols = e._uuid in right_uuids
                 assert must_swap_cols or e._uuid in left_uuids
                 break
+        if must_swap_cols is None:
+            # the first argument is a constant: the second one decides
+            for e in pred.args[1].iter_subtree_postorder():
+                if isinstance(e, Col):
+                    must_swap_cols = e._uuid not in right_uuids
+                    break
 
         assert must_swap_cols is not None
 
